@@ -31,8 +31,29 @@ META = dict(
          "parse_string(parse_all), every (tokens, start, end) of scan_string and every exception escaping it - is <= "
          "len(text) + 1 (parse_locations_inside, parseString_error_loc_inside, scanString_locations_inside; induction "
          "over the fuel through every parseImpl, PPProofs/Lemmas/ParseBound.lean). "
-         "lineno/col/line consistency for every loc is C14's theorem. PARTIAL: termination is not a theorem (the model "
-         "returns `hang` where the code would loop; no fuel bound proved); the other internal exception types, the diagnostic accessors and every class outside the model (Each, Regex, QuotedString, White, Dict, "
+         "lineno/col/line consistency for every loc is C14's theorem. TERMINATION (PPProofs/Props/C06Term.lean, lemmas "
+         "PPProofs/Lemmas/ParseTerm.lean) is proved at full strength for NON-RECURSIVE grammars: for every node table g "
+         "passing the executable well-foundedness test rankOk g r (every id a node refers to - sub-expressions, stop_on / "
+         "fail_on / ignorer, ignorables - is inside the table and has smaller rank r; a Forward cycle fails it for every "
+         "r), every input s satisfying the property's own side condition Advancing g s (an ignorable that matches "
+         "consumes something; a repetition body that matches ends strictly after the location the loop is at - stated at "
+         "the model's two non-advance tests, for the model's own recursive calls), every element id of the table, every "
+         "location and flags and every fuel > r id, the model's _parse does not answer `hang` (acyclic_terminates; "
+         "acyclic_terminates_uniform for one fuel bound serving the whole table; acyclic_terminates_depth with the rank computed: "
+         "fuel >= height of the element, executable test depthOk); likewise parse_string incl. parse_all "
+         "(parseString_terminates) and scan_string, whose own loop budget 2*len+4 never runs out (scanString_terminates). "
+         "advancing_of_nonempty gives the simpler sufficient condition (such bodies / ignorables "
+         "never match empty), and advOk g k is an EXECUTABLE sufficient test for it (every ignorable / repetition body is a "
+         "token leaf Literal/Word/CharsNotIn/non-empty CaselessLiteral/Keyword, an And containing one, a MatchFirst or Or of "
+         "such, or a OneOrMore/Group/Suppress/Combine/Located/Forward wrapper of such; soundness consumes_sound, PPProofs/Lemmas/ParseStrict.lean): for tables passing rankOk "
+         "and advOk, termination holds on EVERY input with decidable hypotheses only (acyclic_terminates_checked, "
+         "entry_points_terminate_checked); exG_advancing instantiates it for a concrete 4-node grammar. The inner loops' "
+         "private budgets (len+2) are shown never to run out (positions strictly increase and stay <= len+1). PARTIAL: "
+         "recursive grammars (Forward cycles) are outside the termination theorem, Advancing is a semantic hypothesis "
+         "(advOk decides only a sufficient fragment: SkipTo, Opt, lookaheads, anchors as bodies are not recognised), the "
+         "harness does not yet evaluate rankOk/advOk on the extracted grammars, and the theorem is about the "
+         "model (`hang` = where the code would loop), tied to the code by the correspondence stream; termination of the real "
+         "entry points is observed by the oracle's per-case alarm; the other internal exception types, the diagnostic accessors and every class outside the model (Each, Regex, QuotedString, White, Dict, "
          "IndentedBlock, helpers, pyparsing_common) are decided by the real-code oracle over the modelled generator and the "
          "whole exported zoo.",
     note="Trusted: Lean kernel; axioms propext/Classical.choice/Quot.sound; the parse model (validated differentially on "
@@ -52,6 +73,10 @@ THEOREMS = [
     "PP.Parse.parse_noIdx",
     "PP.Parse.parseImpl_idx",
     "PP.LineCol.C14_linecol_consistent",
+    "PP.Parse.acyclic_terminates", "PP.Parse.acyclic_terminates_uniform", "PP.Parse.parseString_terminates", "PP.Parse.scanString_terminates",
+    "PP.Parse.advancing_of_nonempty", "PP.Parse.exG_advancing", "PP.Parse.rankOk_spec",
+    "PP.Parse.consumes_sound", "PP.Parse.advancing_of_advOk", "PP.Parse.acyclic_terminates_checked",
+    "PP.Parse.entry_points_terminate_checked", "PP.Parse.acyclic_terminates_depth",
 ]
 
 BOUNDARY = ["", " ", "\t", "\n", " \n ", "\r\n", "a", "ab", "ab ", " ab", "a\tb", "é", "aé b", "ab\n", "ab\n\n", "b", "a,", ",", "a\n b"]
@@ -312,7 +337,7 @@ def known_witnesses(ctx, pp):
 
 def run(ctx):
     pp = common.import_pyparsing()
-    ctx.proof_leg("PPProofs.Props.C06", THEOREMS)
+    ctx.proof_leg("PPProofs.Props.C06", THEOREMS, extra_modules=("PPProofs.Props.C06Term",))
     # generated facts the theorems' hypotheses rest on
     ctx.obligation("And([]).mayIndexError (WFIdx: an empty And carries the flag)", bool(pp.And([]).mayIndexError))
     ctx.obligation("IndexError is not a ParseBaseException", not issubclass(IndexError, pp.ParseBaseException))
